@@ -9,6 +9,8 @@ import Iota.Tie.Expect
 import Iota.Model.Curl
 import Iota.Model.AsmProgram
 import Iota.Proofs.Vectors.Curl
+import Iota.Tie.CurlCodeLanes
+import Iota.Tie.CurlCodePerm
 
 namespace Iota.Tie.Curl
 open Iota
@@ -19,6 +21,10 @@ theorem constants :
 
 /-- the translated s-box is the model's s-box -/
 theorem sBox_eq (aL aH bL bH : BitVec 64) : Gen.Curl.sBox aL aH bL bH = Curl.sBox aL aH bL bH := rfl
+
+/-- (the functions `bool2int`, `sBox`, `Curl.in`, `Curl.out`, `Curl.Reset`, `Curl.CopyState` and `transformGeneric` are
+translated as code, `Gen.Curl.code.*`, and tied to the model for all inputs in `Iota/Tie/CurlCode.lean`; their text is
+not pinned) -/
 
 theorem bool2int_eq (b : Bool) : Gen.Curl.bool2int b = Curl.bool2int b := by
   cases b <;> decide
@@ -36,24 +42,72 @@ theorem build_selection :
 theorem asm_program : Gen.CurlAsm.program = Asm.program := by decide +kernel
 
 theorem src :
-    Gen.Curl.src_curl_transformGeneric = Expect.Curl_src_curl_transformGeneric ∧
-    Gen.Curl.src_curl_sBox = Expect.Curl_src_curl_sBox ∧
     Gen.Curl.src_curl_NewCurlP81 = Expect.Curl_src_curl_NewCurlP81 ∧
-    Gen.Curl.src_curl_Curl_Reset = Expect.Curl_src_curl_Curl_Reset ∧
     Gen.Curl.src_curl_Curl_Clone = Expect.Curl_src_curl_Curl_Clone ∧
-    Gen.Curl.src_curl_Curl_CopyState = Expect.Curl_src_curl_Curl_CopyState ∧
     Gen.Curl.src_curl_Curl_Absorb = Expect.Curl_src_curl_Curl_Absorb ∧
     Gen.Curl.src_curl_Curl_Squeeze = Expect.Curl_src_curl_Curl_Squeeze ∧
-    Gen.Curl.src_curl_Curl_in = Expect.Curl_src_curl_Curl_in ∧
-    Gen.Curl.src_curl_Curl_out = Expect.Curl_src_curl_Curl_out ∧
-    Gen.Curl.src_curl_Curl_transform = Expect.Curl_src_curl_Curl_transform ∧
-    Gen.Curl.src_curl_bool2int = Expect.Curl_src_curl_bool2int :=
-  ⟨rfl, rfl, rfl, rfl, rfl, rfl, rfl, rfl, rfl, rfl, rfl, rfl⟩
+    Gen.Curl.src_curl_Curl_transform = Expect.Curl_src_curl_Curl_transform :=
+  ⟨rfl, rfl, rfl, rfl, rfl⟩
 
 /-- everything else the package declares (imports, constants, types, variables, build constraints and the functions not
 pinned one by one) is unchanged too: no declaration of the modelled packages can change without a tie theorem failing. -/
 theorem rest :
     Gen.Curl.rest_curl = Expect.Curl_rest_curl :=
   rfl
+
+/-! ### curl.go / transform.go translated AS CODE = the model, for all inputs
+`Gen.Curl.code.*` are regenerated from the Go source on every run by the loop translator (methods: the receiver is
+represented by the fields it uses, `c_l`, `c_h`, `c_direction`; `none` = run-time panic).  Proofs:
+`Iota/Tie/CurlCodeLanes.lean`, `Iota/Tie/CurlCodePerm.lean`.  A `Plane` is a `Vector (BitVec 64) 729`; `toList` is the
+content of the Go array. -/
+theorem code_bool2int (b : Bool) : Gen.Curl.code.bool2int b = Curl.bool2int b := CurlCodeLanes.bool2int_eq b
+theorem code_sBox (aL aH bL bH : BitVec 64) : Gen.Curl.code.sBox aL aH bL bH = Curl.sBox aL aH bL bH :=
+  CurlCodeLanes.sBox_eq aL aH bL bH
+
+/-- `c.in(src, idx)`: panics exactly when `src` has fewer than 243 trits; otherwise the two planes are the model's
+`inLane` for lane `idx mod 64` -/
+theorem code_in (l h : Curl.Plane) (src : List (BitVec 8)) (idx : BitVec 64) :
+    Gen.Curl.code.Curl_in l.toList h.toList src idx =
+      if 243 ≤ src.length then
+        some ((Curl.inLane l h (src.map (·.toInt)) (idx.toNat % 64)).1.toList,
+              (Curl.inLane l h (src.map (·.toInt)) (idx.toNat % 64)).2.toList)
+      else none := CurlCodeLanes.in_eq l h src idx
+
+/-- `c.out(dst, idx)`: panics exactly when `dst` has fewer than 243 entries; otherwise its first 243 entries become the
+model's `outLane` of lane `idx mod 64` (values in {-1,0,1}) and the rest of `dst` is untouched -/
+theorem code_out (c : Curl.Curl) (dst : List (BitVec 8)) (idx : BitVec 64) :
+    (Gen.Curl.code.Curl_out c.l.toList c.h.toList dst idx =
+      if 243 ≤ dst.length then some ((Curl.outLane c (idx.toNat % 64)).map (BitVec.ofInt 8) ++ dst.drop 243) else none) ∧
+    (∀ x ∈ Curl.outLane c (idx.toNat % 64), (x = -1 ∨ x = 0 ∨ x = 1) ∧ (BitVec.ofInt 8 x).toInt = x) :=
+  ⟨CurlCodeLanes.out_eq c dst idx, CurlCodeLanes.outLane_trits c _⟩
+
+/-- `Reset` never panics and yields the model's initial state (direction 0 = `SpongeAbsorbing`) -/
+theorem code_reset (l h : List (BitVec 64)) (hl : l.length = 729) (hh : h.length = 729) (d : BitVec 64) :
+    Gen.Curl.code.Curl_Reset l h d = some (Curl.init.l.toList, Curl.init.h.toList, 0#64) :=
+  CurlCodeLanes.reset_eq l h hl hh d
+
+/-- `CopyState(l, h)` (assumption of the translation: `l` and `h` do not overlap): Go's `copy`; with 729-word
+destinations exactly the two planes -/
+theorem code_copyState (c : Curl.Curl) (l h : List (BitVec 64)) :
+    (Gen.Curl.code.Curl_CopyState c.l.toList c.h.toList l h =
+      (c.l.toList.take l.length ++ l.drop 729, c.h.toList.take h.length ++ h.drop 729)) ∧
+    (l.length = 729 → h.length = 729 →
+      Gen.Curl.code.Curl_CopyState c.l.toList c.h.toList l h = (c.copyState.1.toList, c.copyState.2.toList)) :=
+  ⟨CurlCodeLanes.copyState_eq c l h, CurlCodeLanes.copyState_full c l h⟩
+
+/-- `transformGeneric` (assumption of the translation, established by the extractor at its call chain: four pairwise
+distinct arrays): same panic behaviour and same final contents of all four arrays as the model, for ALL planes -/
+theorem code_transformGeneric (b : Curl.Bufs) :
+    Gen.Curl.code.transformGeneric b.lto.toList b.hto.toList b.lfrom.toList b.hfrom.toList =
+      (Curl.transformGeneric b).map (fun r => (r.lto.toList, r.hto.toList, r.lfrom.toList, r.hfrom.toList)) :=
+  CurlCodePerm.transformGeneric_eq b
+
+/-- … hence the regenerated code never panics and computes 81 rounds of the word-level specification `roundsW` into the
+`to` arrays (and 80 rounds into the `from` arrays, which serve as scratch space) -/
+theorem code_transformGeneric_spec (b : Curl.Bufs) :
+    Gen.Curl.code.transformGeneric b.lto.toList b.hto.toList b.lfrom.toList b.hfrom.toList =
+      some ((Spec.CurlW.roundsW 81 (b.lfrom, b.hfrom)).1.toList, (Spec.CurlW.roundsW 81 (b.lfrom, b.hfrom)).2.toList,
+            (Spec.CurlW.roundsW 80 (b.lfrom, b.hfrom)).1.toList, (Spec.CurlW.roundsW 80 (b.lfrom, b.hfrom)).2.toList) :=
+  CurlCodePerm.transformGeneric_some b
 
 end Iota.Tie.Curl
